@@ -23,6 +23,7 @@ type LoopSpec struct {
 	Header    string
 	Invs      []Clause
 	Decreases *Clause
+	Nondec    []Clause
 	Modifies  []Clause
 }
 
@@ -265,6 +266,13 @@ func (cs *ContractSet) ParseContractFile(path, pkgPath string) error {
 						return err
 					}
 					ls.Decreases = &c
+				case "nondecreasing":
+					// the integer expression never gets smaller from one iteration to the next
+					c, err := mk(srest)
+					if err != nil {
+						return err
+					}
+					ls.Nondec = append(ls.Nondec, c)
 				case "header":
 					ls.Header = strings.Trim(srest, `"`)
 				case "modifies":
